@@ -588,10 +588,37 @@ impl Space for Sheets {
     }
     fn run(&self, i: u64, sink: &mut Sink) {
         let spec = &self.specs[i as usize];
+        // before the exports of a case: an export of ANOTHER sheet into a writer that refuses every byte; it must fail and
+        // leave nothing behind that shows up in the exports that follow
+        failed_export_prelude();
         for opt in options() {
             check_export(sink, spec, opt);
         }
     }
+}
+
+struct RefusingWriter;
+impl std::io::Write for RefusingWriter {
+    fn write(&mut self, _buf: &[u8]) -> std::io::Result<usize> {
+        Err(std::io::Error::from_raw_os_error(28))
+    }
+    fn flush(&mut self) -> std::io::Result<()> {
+        Ok(())
+    }
+}
+impl std::io::Seek for RefusingWriter {
+    fn seek(&mut self, _pos: std::io::SeekFrom) -> std::io::Result<u64> {
+        Ok(0)
+    }
+}
+fn failed_export_prelude() {
+    let _ = std::panic::catch_unwind(|| {
+        let mut book = umya_spreadsheet::new_file();
+        let ws = book.get_sheet_mut(&0).unwrap();
+        ws.get_cell_mut("A1").set_value_string("decoy, of a failed export");
+        ws.get_cell_mut("B2").set_value_string("must never show up");
+        let _ = umya_spreadsheet::writer::csv::write_writer(&book, &mut RefusingWriter, &CsvWriterOption::default());
+    });
 }
 
 /// harness self-check: every per-encoding word is representable in its encoding and decodes back
@@ -650,7 +677,7 @@ fn run(ctx: &Ctx) -> i32 {
             spaces,
             cfg: PoolCfg { chunk: 4, case_timeout: std::time::Duration::from_secs(60), ..Default::default() },
             level: "exploration",
-            rule: "every sheet specification (all 512 presence patterns of a 3x3 grid with position-distinct text, a number and a boolean; each of 13 special values at each of the 9 positions with neighbours absent/present; every ordered pair of special values side by side and one above the other; 5 multi-sheet workbooks whose active sheet is not the first / not the last / empty; every presence pattern with one more cell - inside the block or beyond it - that was written and removed again with remove_cell) x every option combination (10 encodings x trim x wrap). Per export: bytes from writer::csv::write_writer are decoded with the selected encoding (own option->label mapping, encoding_rs decoders without replacement, hand-written UTF-16LE/BE decoder), parsed by the harness's RFC-4180 parser (delimiter ',', quote = wrap char, no quoting when none; CRLF/LF/CR record ends) and compared with the grid rows 1..max_row x columns 1..max_col of the active sheet (values trimmed of blanks/tabs when trim is on). distinct_nontrivial = distinct byte outputs".into(),
+            rule: "every sheet specification (all 512 presence patterns of a 3x3 grid with position-distinct text, a number and a boolean; each of 13 special values at each of the 9 positions with neighbours absent/present; every ordered pair of special values side by side and one above the other; 5 multi-sheet workbooks whose active sheet is not the first / not the last / empty; every presence pattern with one more cell - inside the block or beyond it - that was written and removed again with remove_cell) x every option combination (10 encodings x trim x wrap); every case starts with an export of a decoy sheet into a writer that refuses every byte. Per export: bytes from writer::csv::write_writer are decoded with the selected encoding (own option->label mapping, encoding_rs decoders without replacement, hand-written UTF-16LE/BE decoder), parsed by the harness's RFC-4180 parser (delimiter ',', quote = wrap char, no quoting when none; CRLF/LF/CR record ends) and compared with the grid rows 1..max_row x columns 1..max_col of the active sheet (values trimmed of blanks/tabs when trim is on). distinct_nontrivial = distinct byte outputs".into(),
             alphabets: json!({"sheet_specs": n, "special_values": SPECIALS.iter().map(|(n, v)| json!({"name": n, "value": match v { V::Text(t) => t.to_string(), _ => "per-encoding word".to_string() }})).collect::<Vec<_>>(),
                 "encodings": ENCS.iter().map(|e| e.name()).collect::<Vec<_>>(), "trim": [false, true], "wrap": ["none", "\"", "'"], "option_combinations": options().len()}),
             bounds: json!({"grid": "3x3 (multi-sheet decoys up to 4x4)", "values_per_pair_sheet": 2, "both_tiers": "identical (the whole space runs in a few seconds)"}),
